@@ -17,6 +17,7 @@ def semAtom : Sexp → Option SemType
   | .list [.atom "s", .str s] => some { never with str := .some ⟨true, [s]⟩ }
   | .list [.atom "n", .atom n] => some { never with num := .some ⟨true, [n]⟩ }
   | .list [.atom "b", .atom b] => some { never with bool := .some (b == "true") }
+  | .list [.atom "nf", .str n] => some { never with num := .some ⟨true, [n]⟩ }
   | .list [.atom "o", k] => do some (mappingFromIdx (← k.natOf))
   | .list [.atom "l", k] => do some (listFromIdx (← k.natOf))
   | _ => none
